@@ -70,6 +70,10 @@ let () =
       let w = { (rn_wc_of "~,~,~,~,~,~,~,~,~,~,~,~,~") with nwc_escape = rn_esc_of e } in
       (match decode_config_into (rn_client_init false false) w with None -> "err" | Some _ -> "ok")
     | _ -> "?args");
+  register "stand_by_read" (function [conn; rport; buf] ->
+      let ((out, trig), _) = rn_stand_by_read (conn = "1") false rn_relay_detector (Z.to_N (z_of_string rport)) (bytes_of_hex buf) in
+      hex_of_bytes out ^ "|" ^ (match trig with None -> "0" | Some _ -> "1")
+    | _ -> "?args");
   register "handshake2" (function [mode; width; win; cw0; actwin; act; cfgwin; cfg] ->
       let a = { ln_win = (actwin = "1"); ln_body = (if act = "bad" then None else Some (rn_wa_of act)) } in
       let c = if cfg = "none" then None
